@@ -48,3 +48,39 @@ Theorem C10_canonical_rows : forall (E : Type) (cs : list (ctx E)),
   ForallOrdPairs (fun a b => input a <> input b) (dedup_from E [] cs).
 Proof. exact dedup_canonical. Qed.
 Print Assumptions C10_canonical_rows.
+
+(* rows with selections: the hypotheses discharged over canonical results *)
+From Jawk Require Import MiscProofs.
+
+Theorem C10_canonical_selected_rows :
+  forall (E : Type) (cs : list (Ctx.ctx E)),
+    (forall c : Ctx.ctx E, List.In c cs -> UniqueSelected.canonical_key (Ctx.key c)) ->
+    (forall c c' : Ctx.ctx E,
+     List.In c cs -> List.In c' cs -> UniqueSelected.compat_order (Ctx.key c) (Ctx.key c')) ->
+    (forall c c' : Ctx.ctx E,
+     List.In c cs ->
+     List.In c' cs -> Ctx.ckey_eqb (Ctx.key c) (Ctx.key c') = true <-> Ctx.key c = Ctx.key c') /\
+    PipelineSpec.dedup_from E nil cs = GroupUniqProofs.dedup_all E nil cs /\
+    List.ForallOrdPairs (fun a b : Ctx.ctx E => Ctx.key a <> Ctx.key b) (PipelineSpec.dedup_from E nil cs) /\
+    (forall c : Ctx.ctx E,
+     List.In c cs ->
+     exists c' : Ctx.ctx E, List.In c' (PipelineSpec.dedup_from E nil cs) /\ Ctx.key c = Ctx.key c').
+Proof. exact UniqueSelected.dedup_canonical_rows. Qed.
+Print Assumptions C10_canonical_selected_rows.
+
+Theorem C10_canonical_selected :
+  forall (E : Type) (cs : list (Ctx.ctx E)),
+    (forall c : Ctx.ctx E,
+     List.In c cs ->
+     Ctx.results c <> nil /\ List.Forall UniqueSelected.ocanonical (List.map snd (Ctx.results c))) ->
+    (forall c c' : Ctx.ctx E,
+     List.In c cs ->
+     List.In c' cs ->
+     GroupUniqProofs.pairwise UniqueSelected.osame_order (List.map snd (Ctx.results c))
+       (List.map snd (Ctx.results c'))) ->
+    PipelineSpec.dedup_from E nil cs = GroupUniqProofs.dedup_all E nil cs /\
+    List.ForallOrdPairs
+      (fun a b : Ctx.ctx E => List.map snd (Ctx.results a) <> List.map snd (Ctx.results b))
+      (PipelineSpec.dedup_from E nil cs).
+Proof. exact UniqueSelected.dedup_canonical_selected. Qed.
+Print Assumptions C10_canonical_selected.
